@@ -33,6 +33,9 @@ def clean_cases(tier, inst):
             yield {"H": list(v), "scale": 1.0, "pert": None}
             if n <= 5:
                 yield {"H": list(v), "scale": 1e-3, "pert": None}
+                # the same shapes at a large absolute enthalpy (an 800 MW site in kW): a step of 1..3 next to an end value of 8e5 is far
+                # above the absolute tolerance but below 1e-5 of the end value (wave 5: a relative tolerance in the end trimming)
+                yield {"H": list(v), "scale": 1.0, "pert": None, "offset": 8.0e5}
             if n <= 4:
                 for k in range(n):
                     for d in (5e-7, -5e-7, 2e-6):
@@ -129,7 +132,7 @@ def clean_run(case, res: Result):
         if worst > 1e-6 + 1e-12:
             res.violate("curve_moved", case, {"curve": case["dense"], "kept_points": len(Tk), "max_deviation": worst}, f"clean:curve_moved:dense:{kind}")
         return
-    H = [h * case["scale"] for h in case["H"]]
+    H = [h * case["scale"] + case.get("offset", 0.0) for h in case["H"]]
     if case["pert"]:
         H[case["pert"][0]] += case["pert"][1]
     n = len(H)
@@ -141,7 +144,7 @@ def clean_run(case, res: Result):
     span = max(H) - min(H)
     removed = n - len(Tk)
     res.add_case(case, 0 < len(Tk) < n, outcome=[Tk, Hk])
-    tag = ("scaled" if case["scale"] != 1.0 else "unit") + (":pert" if case["pert"] else "") + (":tpert" if case.get("tpert") else "")
+    tag = ("scaled" if case["scale"] != 1.0 else "unit") + (":pert" if case["pert"] else "") + (":tpert" if case.get("tpert") else "") + (":offset" if case.get("offset") else "")
     detail = {"T": T, "H": H, "kept_T": Tk, "kept_H": Hk}
     if len(Tk) == 0:
         if span > 2e-6:
@@ -331,7 +334,7 @@ SUBCHECKS = {
         describe="clean_composite_curve on all lattice polylines (with scale and near-tolerance variants)",
         rule="case = (H vector, scale, perturbation); non-trivial = at least one point removed and at least one kept; outcomes = distinct kept point lists",
         cases=clean_cases, run=clean_run,
-        bound=lambda t: ("{0..3}^n n<=6, scales {1,1e-3}, single-point perturbations for n<=4; tables with repeated temperatures: every pattern x {0..3}^n, n<=5" if t == "quick"
+        bound=lambda t: ("{0..3}^n n<=6, scales {1,1e-3}, offset 8e5 (n<=5), single-point perturbations for n<=4; tables with repeated temperatures: every pattern x {0..3}^n, n<=5" if t == "quick"
                          else "{0..3}^n n<=7 ...; tables with repeated temperatures n<=6"),
     ),
     "piecewise": SubCheck(
